@@ -437,7 +437,12 @@ func gen(g *vh.Gen) {
 				mlim = ".m1"
 			}
 		}
-		g.Emit("hist", "mem"+lim+mlim, naming, vh.HS(base), ops)
-		g.Emit("hist", "file"+lim, naming, vh.HS(base), ops)
+		// a fifth of the histories: the client's base URL is spelt with a trailing slash
+		ts := ""
+		if g.Chance(0.2) {
+			ts = ".t1"
+		}
+		g.Emit("hist", "mem"+lim+mlim+ts, naming, vh.HS(base), ops)
+		g.Emit("hist", "file"+lim+ts, naming, vh.HS(base), ops)
 	}
 }
